@@ -129,7 +129,9 @@ func c07(c *an.Check) {
 	}
 	c.Require(okH, "EXACTREAD", "read helper reads only into buf[n:] of its own buffer", helper, "", len(readCalls), "single r.Read(buf[n:])", "helper reads somewhere other than the unfilled tail of its buffer")
 	c.Gate(an.GateSpec{Construct: "read helper success-return", Fn: helper, Sink: nilErrReturn, Reqs: []an.Req{
-		an.FactReq("n >= min", func(s *an.State, x, y ssa.Value, r an.Rel) bool { return an.IsParam(y, 2) && r != an.ANY && r&an.LT == 0 }),
+		an.FactReq("n >= min", func(s *an.State, x, y ssa.Value, r an.Rel) bool {
+			return an.IsParam(y, 2) && r != an.ANY && r&an.LT == 0
+		}),
 	}})
 	c.ErrProp(an.ErrPropSpec{Construct: "read helper propagates Read errors", Fn: helper, ErrIdx: -1, Failing: func(s *an.State) (bool, string) {
 		for _, rc := range readCalls {
@@ -353,7 +355,7 @@ func isNamedPtr(t types.Type, name string) bool {
 
 func init() {
 	register(&Def{ID: "C07", Run: c07,
-		Explain: "Decides on SSA: (EXACTREAD) the header reader touches the stream only through its exact-read helper, each call requesting min==len(buf) of a freshly made buffer, and the helper reads only into buf[n:] until n>=min, propagating Read errors — so no byte after the header can be consumed; (BOUNDED) the body buffer is allocated only past varint n>0, length!=0 and length<=an init-only package limit; (R1) success only past both reads and UnmarshalVT of that buffer; leftover prefix bytes are carried over; (MIRROR) writer = varint(SizeVT)‖MarshalToVT of the same message; (R1/MUSTCALL/PROVENANCE) HandleIncomingStream issues HandleMountedStream only past header ok and protocol.ID.Validate ok, closes the stream on failing exits, and builds the directive from (decoded validated id, lnk.GetLocalPeer(), remote peer of lnk); protocol.ID.Validate succeeds only for non-empty valid UTF-8; (PANIC) reader totality.",
-		NotCov:  "the value-level statement 'same ID for every chunking' (follows from exact reads under the io.Reader contract, which is trusted) and handler dispatch by the controller bus.",
+		Explain:     "Decides on SSA: (EXACTREAD) the header reader touches the stream only through its exact-read helper, each call requesting min==len(buf) of a freshly made buffer, and the helper reads only into buf[n:] until n>=min, propagating Read errors — so no byte after the header can be consumed; (BOUNDED) the body buffer is allocated only past varint n>0, length!=0 and length<=an init-only package limit; (R1) success only past both reads and UnmarshalVT of that buffer; leftover prefix bytes are carried over; (MIRROR) writer = varint(SizeVT)‖MarshalToVT of the same message; (R1/MUSTCALL/PROVENANCE) HandleIncomingStream issues HandleMountedStream only past header ok and protocol.ID.Validate ok, closes the stream on failing exits, and builds the directive from (decoded validated id, lnk.GetLocalPeer(), remote peer of lnk); protocol.ID.Validate succeeds only for non-empty valid UTF-8; (PANIC) reader totality.",
+		NotCov:      "the value-level statement 'same ID for every chunking' (follows from exact reads under the io.Reader contract, which is trusted) and handler dispatch by the controller bus.",
 		Assumptions: commonAssumptions})
 }
